@@ -349,7 +349,7 @@ class FakeSocket:
                 raise _real_socket.timeout("timed out")
         data, src = self.inbox.pop(0)
         self.received += 1
-        return data, src
+        return data[:n], src          # a datagram longer than the buffer is truncated, as recvfrom() does on a UDP socket
 
     def close(self):
         if not self.closed:
